@@ -35,6 +35,7 @@ ACCS = [
     ('append', 'emptylist', 't_wrap'),
     ('append_nested', 'nested', 't_wrap'),
     ('dictcount', 'emptydict', 't_wrap'),
+    ('mulsign', '1.0', 't_neg'),          # float state through 0.0 and -0.0 (values 0,1,2 -> factors -1,0,1)
 ]
 DERIVED = [
     [['count']], [['count', True]], [['sum']], [['sum', True]], [['mean']], [['mean', True]],
@@ -65,9 +66,14 @@ def units(tier):
                                 'keys': [0, 1, 3], 'depth': d3, 'values': [1], 'shard': [0, 1]})
                     out.append({'fam': 'plain', 'acc': ai, 'factory': factory, 'reduce': reduce, 'term': term,
                                 'L': 5 if tier == 'quick' else 6})
+    for ai in range(len(ACCS)):
+        for reduce in (False, True):
+            out.append({'fam': 'scan', 'acc': ai, 'factory': False, 'reduce': reduce, 'term': reduce, 'keys': [3, 12], 'depth': d3,
+                        'values': [1, 2], 'shard': [0, 1]})
     for di in range(len(DERIVED)):
         for sh in range(n):
             out.append({'fam': 'derived', 'spec': di, 'keys': [0, 1], 'depth': d2, 'shard': [sh, n]})
+        out.append({'fam': 'long', 'spec': di})
     for sh in range(n):
         out.append({'fam': 'dist', 'keys': [0, 1], 'depth': d2 - 1, 'shard': [sh, n]})
     return out
@@ -76,8 +82,16 @@ def units(tier):
 def cases(unit):
     fam = unit['fam']
     if fam == 'plain':
-        for seq in spaces.sequences([1, 2], unit['L']):
+        for seq in spaces.sequences([0, 1, 2] if ACCS[unit['acc']][0] == 'mulsign' else [1, 2], unit['L']):
             yield dict(unit, seq=seq)
+        return
+    if fam == 'long':
+        # long lifetimes (beyond any internal chunk size): one key with 200 items; two interleaved keys with 130 items each
+        yield {'fam': 'derived', 'spec': unit['spec'], 'events': [['c', 0]] + [['n', 0, 1 + (i * 7) % 3] for i in range(200)] + [['d', 0]]}
+        ev = [['c', 0], ['c', 1]]
+        for i in range(130):
+            ev += [['n', 0, 1 + i % 2], ['n', 1, 2 - i % 2]]
+        yield {'fam': 'derived', 'spec': unit['spec'], 'events': ev + [['d', 1], ['d', 0]]}
         return
     sh, n = unit['shard']
     for i, seq in enumerate(spaces.wf_sequences(unit['keys'], unit.get('values', [1, 2]), unit['depth'])):
@@ -170,6 +184,8 @@ def run_case(case, acc):
         return out
 
     events = [tuple(e) for e in case['events']]
+    if accname == 'mulsign':
+        events = [('n', e[1], e[2] - 1 + 10 * (j % 3)) if e[0] == 'n' else e for j, e in enumerate(events)]     # factors in {-1, 0, 1}
     sink = RefSink()
     store = new_store()
     src = rx.from_(mux_events(events, store))
